@@ -7,9 +7,7 @@ from zw import Broken
 def run(prog, rep, tier):
     rep.clause = ("Z1: for each of the 20 DWARF constant families, every value the domain's stringer switch can render (586 constants, evaluated by the "
                   "compiler after macro expansion) is a word that the vocabulary maps back to the same (value, domain), every registered word renders to "
-                  "a word denoting the same constant, and dw_simple_dom::show prints the table entry unchanged; Z2: each row of the brief string "
-                  "writer's escape table is an escape the lexer (escape switch + octal/hex rules of lexer.ll) reads back as the same single byte and "
-                  "every character that is special inside a string literal has a row; Z3: hex fields printed with setw() are zero filled.")
+                  "a word denoting the same constant, and dw_simple_dom::show prints the table entry unchanged; Z2: dumper::dump_charp interpreted from source on every single byte, every byte followed by a character that could extend an escape, and longer strings; the text is read by the simulated scanner (rule selection from lexer.ll, actions interpreted) and must come back as one literal with the same bytes; Z3: hex fields printed with setw() are zero filled.")
     rep.clause += (" Z4: the show members of the dec/hex/oct/bin domains with the mpz_class inserter, comparison and negation they use, interpreted "
                    "from source with std::ostream's radix/showbase formatting modelled, on 0 and on 2^k, 2^(k+1)-1 (k = 0..63) in every "
                    "representation and sign: the text is an integer literal of the lexer's syntax that reads back as the same value in the same "
@@ -23,7 +21,7 @@ def run(prog, rep, tier):
     q = r_pure.q1(prog)
     apply(rep, "Q1", "constant domains (shared singletons that render every constant) carry no mutable members or written statics",
           ([i for i in q[0] if i[0].startswith(("Q1i:", "Q1ii"))], [f for f in q[1] if f["key"].startswith(("Q1i:", "Q1ii"))]), 2)
-    apply(rep, "Z2", "escape tables of writer and reader agree", r_tables.z2(prog), 12)
+    apply(rep, "Z2", "brief string rendering reads back as the same bytes (writer interpreted, reader simulated from lexer.ll)", r_tables.z2(prog), 3)
     apply(rep, "Z3", "hex fields are zero filled", r_tables.z3(prog), 2)
     apply(rep, "Z4", "integers render in their domain's radix and read back as the same value of the same domain (renderers interpreted on every bit length)", r_tables.z4(prog, tier), 4)
     maybe_mutants("C20", rep, tier)
